@@ -84,7 +84,6 @@ package client
 //@ watch RF = dyn field:client.Runtime.response
 //@ watch RR = invoke (runtime.ClientResponseReader).ReadResponse
 //@ requires r != nil && operation != nil && operation.Reader != nil && r.response != nil && (r.Debug ==> r.logger != nil)
-//@ assume after CR ret(CR,0,2) == nil ==> ret(CR,0,0) != nil && ret(CR,0,1) != nil
 //@ stable r.Consumers[*], operation.Client, operation.Context, operation.Reader
 //@ ensures [create] calls(CR) == 1 && arg(CR,0,0) == r && arg(CR,0,1) == operation
 //@ ensures [C12:createerr] ret(CR,0,2) != nil ==> result0 == nil && result1 == ret(CR,0,2) && calls(DO) == 0 && calls(WC) == 0 && calls(WT) == 0
@@ -175,3 +174,10 @@ package client
 //@ ensures [C14:probe] calls(GH) == 1 && recv(GH,0) == req && calls(HG) == 1 && arg(HG,0,0) == ret(GH,0,0) && arg(HG,0,1) == "Authorization"
 //@ ensures [C14:preset] ret(HG,0,0) != "" ==> result == nil && calls(DA) == 0
 //@ ensures [C14:default] ret(HG,0,0) == "" ==> calls(DA) == 1 && recv(DA,0) == r.DefaultAuthentication && arg(DA,0,0) == req && arg(DA,0,1) == reg && result == ret(DA,0,0)
+
+// createHttpRequest: assumed until buildHTTP is under contract (see DESIGN.md C10-C12):
+// it builds new request objects and writes nothing into the runtime or the operation.
+//@ func (*Runtime).createHttpRequest
+//@ trusted
+//@ ensures result2 == nil ==> result0 != nil && result1 != nil
+//@ assigns \opaque
